@@ -58,6 +58,10 @@ fn witnesses() -> Vec<(SysCfg, u64, Vec<Op>)> {
 fn main() {
     sys::maybe_child();
     let a = parse_args();
+    if a.stream == "walbuf" {
+        walbuf_stream(&a);
+        return;
+    }
     let crashes = match a.stream.as_str() {
         "crash" => true,
         other => {
@@ -95,13 +99,13 @@ fn main() {
         let mut stage_seen = std::collections::BTreeSet::new();
         let mut fail: Option<String> = None;
         let mut restarts = 0u32;
-        let mut skew_ops = 0u32;
+        let mut _skew_ops = 0u32;
         for (n, op) in ops.iter().enumerate() {
             if let Op::S { k, .. } = op {
                 applied.push(*k);
             }
             if matches!(op, Op::X | Op::D) { restarts += 1; }
-            if matches!(op, Op::F | Op::D) { skew_ops += 1; }
+            if matches!(op, Op::F | Op::D) { _skew_ops += 1; }
             if let Some(mut line) = ex.exec(op) {
                 let racy = *op == Op::R && ex.last_read_racy;
                 if racy { line = ex.last_real_read.clone(); }
@@ -149,6 +153,145 @@ fn main() {
                 let (class, detail) = f.split_once('\t').unwrap();
                 st.oracle_fail(i, class, detail)
             }
+        }
+    }
+    st.finish();
+}
+
+
+/// The WAL file at byte level. Buffered and unbuffered writers, with and without
+/// `flush_each_write`, buffer capacities placed around multiples of the entry length so that
+/// buffer boundaries fall inside entries, exactly at their end, and between the JSON text and its
+/// newline. Several lifetimes, each ended by SIGKILL once the WAL task has taken every entry; the
+/// flush threshold is never reached, so everything lives in `wal-00000.log`.
+///
+/// Compared with the model: the line lengths the file holds at every kill. Oracle (the buffered
+/// clause of the property): what a restart serves is, per lifetime, a prefix of that lifetime's
+/// acknowledged events (all of them with `flush_each_write`), and an event that survived one
+/// restart survives the next.
+fn walbuf_stream(a: &snel_harness::out::Args) {
+    use serde_json::json;
+    use snel_harness::sys::Session;
+    let mut st = Stream::create(&a.out, "walbuf");
+    for i in 0..a.cases {
+        if a.only.is_some_and(|o| o != i) {
+            continue;
+        }
+        let mut r = Rng::for_case(a.seed, "walbuf", i);
+        // the length of an entry's JSON for a one-digit key and context "c0"
+        const L: usize = 109;
+        let buffered = r.below(5) != 0;
+        let fe = r.below(4) == 0;
+        let bufsz: usize = if !buffered {
+            100 * 1024
+        } else {
+            let m = 1 + r.below(3) as usize;
+            match r.below(8) {
+                0 => m * (L + 1),          // boundary exactly after a newline
+                1 => m * (L + 1) - 1,      // boundary between JSON and newline
+                2 => m * (L + 1) + 1,
+                3 => m * (L + 1) - 2,
+                4 => L,                    // one JSON, newline does not fit
+                5 => 1 + r.below(40) as usize,   // smaller than any entry: written through
+                6 => 100 + r.below(300) as usize,
+                _ => 64 + r.below(1000) as usize,
+            }
+        };
+        let cfg = SysCfg {
+            event_per_zone: 50,
+            fill_factor: 2,
+            wal_buffered: buffered,
+            wal_flush_each_write: fe,
+            wal_buffer_size: bufsz.to_string(),
+            ..Default::default()
+        };
+        let root = a.out.join(format!("walbuf-{i}"));
+        let _ = std::fs::remove_dir_all(&root);
+        let mut s = Session::start(&root, &cfg);
+        assert!(s.cmd("DEFINE ev0 FIELDS { k: \"int\" }").map(|x| x.ok()).unwrap_or(false));
+        let lifetimes = 2 + r.below(3);
+        let mut toks: Vec<String> = vec![];
+        let mut obs: Vec<String> = vec![];
+        let mut k = 0u64;
+        let mut lives: Vec<Vec<u64>> = vec![]; // keys acknowledged per lifetime
+        let mut served: Vec<Vec<u64>> = vec![]; // keys served after each restart
+        let mut fail: Option<String> = None;
+        let read_keys = |s: &mut Session| -> Vec<u64> {
+            let q = s.cmd("QUERY ev0 RETURN [k]").expect("query");
+            let mut keys: Vec<u64> = q.col("k").iter().filter_map(|v| v.as_u64()).collect();
+            keys.sort();
+            keys
+        };
+        for _life in 0..lifetimes {
+            let n = r.below(7);
+            let mut mine = vec![];
+            for _ in 0..n {
+                k += 1;
+                // contexts of different lengths vary the entry length
+                let ctx = format!("c{}", "0".repeat(1 + r.below(3) as usize));
+                assert!(s.cmd(&format!("STORE ev0 FOR {ctx} PAYLOAD {{\"k\":{k}}}")).map(|x| x.ok()).unwrap_or(false));
+                mine.push(k);
+                // the entry exactly as the WAL task serialises it
+                let q = s.cmd(&format!("QUERY ev0 WHERE k = {k}")).expect("query");
+                let ts = q.col("timestamp").first().and_then(|v| v.as_u64()).expect("timestamp");
+                let id = q.col("event_id").first().and_then(|v| v.as_u64()).expect("event id");
+                let json = format!("{{\"timestamp\":{ts},\"context_id\":\"{ctx}\",\"event_type\":\"ev0\",\"payload\":{{\"k\":{k}}},\"event_id\":{id}}}");
+                toks.push(format!("A {}", json.len()));
+            }
+            // every entry has been handed to the writer
+            let t0 = std::time::Instant::now();
+            loop {
+                let h = s.ctl(json!({"ctl": "hits", "point": "wal.appended"})).and_then(|v| v["hits"].as_u64()).unwrap_or(0);
+                if h >= n || t0.elapsed().as_secs() > 20 {
+                    break;
+                }
+                std::thread::sleep(std::time::Duration::from_millis(2));
+            }
+            s.kill();
+            toks.push("K".into());
+            let bytes = std::fs::read(s.shard_wal_dir(0).join("wal-00000.log")).unwrap_or_default();
+            let mut lens: Vec<usize> = bytes.split(|b| *b == b'\n').map(|l| l.len()).collect();
+            if lens.last() == Some(&0) {
+                lens.pop(); // `lines()` does not report an empty piece after the last newline
+            }
+            obs.push(if lens.is_empty() { "-".to_string() } else { lens.iter().map(|x| x.to_string()).collect::<Vec<_>>().join(",") });
+            lives.push(mine);
+            s = Session::start(&root, &cfg);
+            let got = read_keys(&mut s);
+            // oracle
+            let mut want_max: Vec<u64> = vec![];
+            for (j, life) in lives.iter().enumerate() {
+                let surv: Vec<u64> = life.iter().copied().filter(|x| got.contains(x)).collect();
+                if surv != life[..surv.len()].to_vec() {
+                    fail.get_or_insert(format!("after restart {} the events of lifetime {j} served are {surv:?}, not a prefix of {life:?}", lives.len()));
+                }
+                if fe && surv.len() != life.len() {
+                    fail.get_or_insert(format!("flush_each_write: lifetime {j} stored {life:?}, served {surv:?} after restart {}", lives.len()));
+                }
+                want_max.extend(life.iter());
+            }
+            if got.iter().any(|x| !want_max.contains(x)) || got.windows(2).any(|w| w[0] == w[1]) {
+                fail.get_or_insert(format!("restart {} serves {got:?}: unknown or repeated keys", lives.len()));
+            }
+            if let Some(prev) = served.last() {
+                if prev.iter().any(|x| !got.contains(x)) {
+                    fail.get_or_insert(format!("served after restart {}: {prev:?}; after restart {}: {got:?} - an event that had survived is gone", lives.len() - 1, lives.len()));
+                }
+            }
+            served.push(got);
+        }
+        drop(s);
+        let _ = std::fs::remove_dir_all(&root);
+        let op = format!("walbuf cap={} fe={} | {}", if buffered { bufsz } else { 0 }, if fe { 1 } else { 0 }, toks.join(" | "));
+        st.tally(if !buffered { "unbuffered" } else if bufsz < L { "cap_below_entry" } else { "cap_holds_entries" });
+        st.tally(if fe { "flush_each_write" } else { "no_flush_each_write" });
+        let lost: usize = lives.iter().map(|l| l.len()).sum::<usize>() - served.last().map(|s| s.len()).unwrap_or(0);
+        st.tally_n("entries_lost_in_buffer", lost as u64);
+        st.tally_n("entries", k);
+        st.case(&op, &obs.join(" ; "), k > 0);
+        match fail {
+            None => st.oracle_ok(),
+            Some(d) => st.oracle_fail(i, "-", &format!("{d}; {op}")),
         }
     }
     st.finish();
